@@ -18,5 +18,6 @@ CONSTANTS
   Alias = {}
   TrackTouch = TRUE
   MisTag = {"sb_rem"}
+  BufOrder = "seq"
 INVARIANTS TypeOK ReadsLastCommitted ScansExactMembers IterSound
 CHECK_DEADLOCK FALSE
